@@ -381,7 +381,20 @@ void apply(int op, uint8_t a, uint8_t b, int ns, int nw, int nu)
         break;
     }
     case S_SWAP: {
-        if (i == j) { CNT("noop.self"); TRACE("swap noop"); return; }
+        if (i == j) {
+            // swap(a, a): as for the self-share above the outcome is read off get() and both readings are accepted (an
+            // exchange through XOR or through a cleared temporary empties the object); the counting clauses apply
+            int k;
+            if (sh[i] >= 0 && A[sh[i]].has_clr && inner_weak_applies(sh[i], &k)) { CNT("noop.self"); TRACE("swap noop"); return; }
+            LIB(cstl_shared_ptr_swap(&SP[i], &SP[i]));
+            const void *g;
+            LIB(g = cstl_shared_ptr_get_const(&SP[i]));
+            if (sh[i] >= 0 && g == nullptr) { pred_drop_owner(sh[i], i); sh[i] = -1; CNT("class.self_swap.emptied_the_object"); }
+            else CNT(sh[i] >= 0 ? "class.self_swap.kept_the_object" : "class.self_swap.empty_object");
+            TRACE("S%d swap with itself: %s", i, g ? "still refers to its memory" : "empty afterwards");
+            compare_events("shared_swap_self");
+            break;
+        }
         LIB(cstl_shared_ptr_swap(&SP[i], &SP[j]));
         if (sh[i] >= 0 && sh[j] >= 0 && sh[i] != sh[j]) { cx.swap_diff = true; CNT("class.swap.different_allocations"); }
         if (sh[i] >= 0) { A[sh[i]].owners.erase(i); }
